@@ -399,8 +399,10 @@ def checker_reach(prog, env):
             pair = (calg, kalg)
             # route 1: a callback on a checker without a key selects the pair
             one(pair, True, (NONE, False))
-            if kalg is not None:
-                # route 2: the checker holds this key under an admitted algorithm and the callback keeps the key, changing only the algorithm
+            if kalg is not None and (kalg in (NONE, calg) or kalg == [a for a in algs if a not in (NONE, calg)][0]):
+                # route 2: the checker holds this key under an admitted algorithm and the callback keeps the key, changing only the algorithm.
+                # Whether the key is "kept" does not depend on its alg attribute; the attribute only enters through its comparisons with
+                # none and with the selected algorithm, so three attributes per algorithm cover this route (routes 1 and 3 are complete)
                 for salg in ([first] if kalg == NONE else [NONE, kalg]):
                     one(pair, True, (salg, True))
             # route 3: no callback; the stored pair (only admitted ones can be stored: C02.setkey-stores)
@@ -445,11 +447,14 @@ def check_admission_composed(chk, prog, env):
              n, bad, floor=200)
 
 
-def check_order(chk, prog, env):
-    chk.guard('admission composed', check_admission_composed, chk, prog, env)
+def check_order(chk, prog, env, variants=('checker', 'builder')):
+    if 'checker' in variants:
+        chk.guard('admission composed', check_admission_composed, chk, prog, env)
     model = build_model()
     for variant, entry, sink in (('checker', 'jwt_checker_verify', 'jwt_verify_complete'),
                                  ('builder', 'jwt_builder_generate', 'jwt_head_setup')):
+        if variant not in variants:
+            continue
         unit = T.VARIANT_UNIT[variant]
         prog.func(unit, entry)
         total = 0
